@@ -411,16 +411,25 @@ func (s *Solver) Check() Result {
 	return r
 }
 
-func (s *Solver) checkRaw() Result {
+func (s *Solver) checkRaw() Result { return s.checkRawN(0) }
+
+func (s *Solver) checkRawN(retry int) Result {
 	t0 := time.Now()
 	s.send("(check-sat)")
 	done := make(chan Result, 1)
 	out := s.out
+	canceled := false
 	go func() {
 		var r Result
 		for {
 			line := s.readLineFrom(out)
 			switch {
+			case strings.HasPrefix(line, "(error") && strings.Contains(line, "canceled"):
+				// z3 5.1 sometimes answers a (push) or (assert) with "canceled" after an earlier query
+				// ran into its time limit: the command was not executed and the process's stack no
+				// longer matches ours. Restart it, replay the stack and ask again.
+				canceled = true
+				continue
 			case line == "sat":
 				r = Sat
 			case line == "unsat":
@@ -457,6 +466,14 @@ func (s *Solver) checkRaw() Result {
 	s.Stats.Time += time.Since(t0)
 	if s.Log != nil {
 		fmt.Fprintf(s.Log, "; time %.3f\n", time.Since(t0).Seconds())
+	}
+	if canceled {
+		s.Stats.Hangs++
+		s.rebuild()
+		if retry < 2 {
+			return s.checkRawN(retry + 1)
+		}
+		r = Unknown
 	}
 	switch r {
 	case Sat:
